@@ -30,6 +30,10 @@ LAYOUTS = [
     ("a/b/c", "a/b/c/ops", "a", "a/b/schema.d.mts", "a/b/c/d/e/res.d.cts"),
     ("graphql/schema", "graphql/schema/ops", "graphql", "graphql/schema/schema.ts", "graphql/resolvers.tsx"),
     ("src/graphql", "generated/graphql/ops", "src/graphql/f", "generated/graphql/schema.d.ts", "src/graphql/resolvers.d.ts"),
+    # file names with further dots before the TS extension, dot-directories, TS-looking inner segments
+    ("schema", "ops", "ops/frag", "generated/schema.generated.ts", "generated/res.olvers.v2.d.ts"),
+    ("src", "src/ops", "src/f", "src/.generated/graphql.schema.d.ts", "types/api.v2.d.mts"),
+    ("s", "o/p", "f", "out/schema.d.ts.d.cts", "o/p/.res/a.ts.tsx"),
 ]
 
 
